@@ -14,6 +14,7 @@ Dimensions (`nt` taxa, `nv` loci) are explicit arguments, as numpy shapes are.
 -/
 import PybropsModel.Np
 import PybropsModel.Model.Binary64
+import PybropsModel.Model.BinaryFloat
 
 namespace Genotype
 
@@ -111,6 +112,28 @@ def fmtM1m1 (nv : Nat) (m : UMat) : List (List α) :=
 
 end unphased
 
+/-! ### the column loop of `mat_asformat("{-1,m,1}")`, transcribed literally (closed form: `fmtM1m1`, proved equal in
+    Lemmas/GenotypeLoops.lean) -/
+section m1loop
+variable {α : Type} [Add α] [Sub α] [Div α] [OfNat α 0] [OfNat α 1] [BEq α] [NatCast α] [IntCast α]
+
+/-- `out = self.mat - 1.0` -/
+def m1Init (m : UMat) : List (List α) := m.map (fun r => r.map (fun g => ((g : Int) : α) - 1))
+
+/-- `view.mean()` of column `i` of the float matrix -/
+def m1ColMean (out : List (List α)) (i : Nat) : α :=
+  ((out.map (fun r => r.getD i 0)).foldr (· + ·) 0) / ((out.length : Nat) : α)
+
+/-- one pass of the loop body: `mean = view.mean(); mask = (view == 0); out[mask, i] = mean` -/
+def m1Step (out : List (List α)) (i : Nat) : List (List α) :=
+  let mean := m1ColMean out i
+  out.map (fun r => r.zipIdx.map (fun xj => if xj.2 == i then (if xj.1 == 0 then mean else xj.1) else xj.1))
+
+/-- `for i in range(out.shape[1]): …` -/
+def m1Loop (nv : Nat) (m : UMat) : List (List α) := (List.range nv).foldl m1Step (m1Init m)
+
+end m1loop
+
 /-! ### phased class -/
 section phased
 variable {α : Type} [Add α] [Sub α] [Mul α] [Div α] [OfNat α 0] [OfNat α 1] [LT α] [DecidableLT α]
@@ -179,6 +202,29 @@ def gtfreqF64At (m : UMat) (i j : Nat) : Rat :=
 /-- `out[mask] = 1.0 - out[mask]` on an already rounded frequency -/
 def mafF64Of (p : Rat) : Rat := if (1 : Rat) / 2 < p then Binary64.roundBinary64 (1 - p) else p
 
+
+/-! ### narrower floating dtypes: `dtype.type(out)` rounds the binary64 value to the nearest value of the format
+    (`BinaryFloat.roundBin t`, `t` = 23 stored significand bits for float32, 10 for float16) -/
+
+def afreqNarrowAt (t ploidy : Nat) (m : UMat) (j : Nat) : Rat := BinaryFloat.roundBin t (afreqF64At ploidy m j)
+def pafreqNarrowAt (t nt : Nat) (G : PMat) (j : Nat) : Rat := BinaryFloat.roundBin t (pafreqF64At nt G j)
+def tafreqNarrowAt (t ploidy : Nat) (g : Int) : Rat := BinaryFloat.roundBin t (tafreqF64At ploidy g)
+def gtfreqNarrowAt (t : Nat) (m : UMat) (i j : Nat) : Rat := BinaryFloat.roundBin t (gtfreqF64At m i j)
+/-- `maf(float32)`: `out = afreq(float32)`; `out[mask] = 1.0 - out[mask]` evaluated in that format -/
+def mafNarrowOf (t : Nat) (p : Rat) : Rat := if (1 : Rat) / 2 < p then BinaryFloat.roundBin t (1 - p) else p
+
+/-! ### integer dtypes: `dtype.type(out)` on the float64 result truncates toward zero -/
+
+/-- numpy's float → integer cast: truncation toward zero -/
+def truncRat (q : Rat) : Int := if q < 0 then -((-q).floor) else q.floor
+
+/-- `afreq("int64")`, `tafreq(int)`, `gtfreq("int8")`, `maf("int32")`: the cast of the binary64 value -/
+def afreqIntAt (ploidy : Nat) (m : UMat) (j : Nat) : Int := truncRat (afreqF64At ploidy m j)
+def pafreqIntAt (nt : Nat) (G : PMat) (j : Nat) : Int := truncRat (pafreqF64At nt G j)
+def tafreqIntAt (ploidy : Nat) (g : Int) : Int := truncRat (tafreqF64At ploidy g)
+def gtfreqIntAt (m : UMat) (i j : Nat) : Int := truncRat (gtfreqF64At m i j)
+/-- `maf(int)`: `out = afreq(int)` (0 or 1), `out[out > 0.5] = 1.0 - out[...]` -/
+def mafIntOf (a : Int) : Int := if 0 < a then 1 - a else a
 
 /-! ### run-length compressed populations (driver only: very large populations with few distinct rows) -/
 
